@@ -455,31 +455,37 @@ def run_nested_fsm(task):
     for (no, ni, same, host, iinit) in specs:
         onames = [f"S{k}" for k in range(no)]
         inames = [f"S{k}" for k in range(ni)] if same else [f"T{k}" for k in range(ni)]
-        m = Module()
-        cd = ClockDomain("sync")
-        m.domains.sync = cd
-        a = Signal(2)
-        og_o = Signal(no)
-        og_i = Signal(ni)
-        cnt = Signal(3)
-        kw = {} if iinit is None else {"init": inames[iinit]}
-        with m.FSM(name="outer") as outer:
+        try:
+            m = Module()
+            cd = ClockDomain("sync")
+            m.domains.sync = cd
+            a = Signal(2)
+            og_o = Signal(no)
+            og_i = Signal(ni)
+            cnt = Signal(3)
+            kw = {} if iinit is None else {"init": inames[iinit]}
+            with m.FSM(name="outer") as outer:
+                for s in range(no):
+                    with m.State(onames[s]):
+                        if s == host:
+                            with m.FSM(name="inner", **kw) as inner:
+                                for t in range(ni):
+                                    with m.State(inames[t]):
+                                        m.d.sync += cnt.eq(cnt + t + 1)
+                                        with m.If(a[0]):
+                                            m.next = inames[(t + 1) % ni]
+                        with m.If(a[1]):
+                            m.next = onames[(s + 1) % no]
             for s in range(no):
-                with m.State(onames[s]):
-                    if s == host:
-                        with m.FSM(name="inner", **kw) as inner:
-                            for t in range(ni):
-                                with m.State(inames[t]):
-                                    m.d.sync += cnt.eq(cnt + t + 1)
-                                    with m.If(a[0]):
-                                        m.next = inames[(t + 1) % ni]
-                    with m.If(a[1]):
-                        m.next = onames[(s + 1) % no]
-        for s in range(no):
-            m.d.comb += og_o[s].eq(outer.ongoing(onames[s]))
-        for t in range(ni):
-            m.d.comb += og_i[t].eq(inner.ongoing(inames[t]))
-        frag = elaborate(m)
+                m.d.comb += og_o[s].eq(outer.ongoing(onames[s]))
+            for t in range(ni):
+                m.d.comb += og_i[t].eq(inner.ongoing(inames[t]))
+            frag = elaborate(m)
+        except Exception as ex:
+            out["violations"].append({"sig": f"nested-fsm:{no},{ni},same={int(same)},host={host},init={iinit}:build-raises",
+                                      "what": f"nested FSM {(no, ni, same, host, iinit)} cannot be built: {type(ex).__name__}: {ex}",
+                                      "payload": {"nested_fsm": [no, ni, same, host, iinit], "depth": depth}})
+            continue
         out["cov"]["nested_fsm_designs"] += 1
         i0 = 0 if iinit is None else iinit
 
